@@ -131,7 +131,16 @@ def rx_oracle(ck, kind, al, sid, lines, out, npre, info):
         else:
             why = L.must_reject(msgs[0], al, kind, own)
             ck.count("rx:" + ("rejected:" + why.split("(")[0].strip() if why else "passed"))
-        if why is not None:
+        if info[0].startswith("embedded-"):
+            # nothing in or after a damaged carrier frame may be acted upon, however the remaining octets are delimited
+            if eff or st_core(kind, st) != st_core(kind, prev):
+                ck.fail("input", "oracle:rx-embedded-accepted:" + kind,
+                        "%s station (address width %d) acted on octets inside the damaged frame [%s: %s]: delimited %s, reaction %s" % (
+                            kind, al, info[0], info[1], msgs[0].hex() if msgs else "-", eff or st),
+                        {"script": lines[:npre + 1] + ["run x%d" % (len(lines) - npre - 1)], "observed": b})
+                return
+            ck.count("rx:embedded-block-silent")
+        elif why is not None:
             if eff or st_core(kind, st) != st_core(kind, prev):
                 cls = "answered" if any(l.startswith("tx") for l in eff) else ("passed-on" if eff else "state-changed")
                 ck.fail("input", "oracle:rx-%s:%s:%s" % (cls, kind, (why.split("(")[0].strip().replace(" ", "-"))),
@@ -233,6 +242,25 @@ def run(ck):
                 lines = pre + ["rx " + hx(g), "run", "run", "run"]
                 scripts.append((sid, lines))
                 meta[sid] = ("rx", kind, al, len(pre), (name, tag), g)
+        # a damaged carrier frame whose user data contain a complete valid frame for this station: after the loss of
+        # synchronisation the rest of the damaged frame must not be searched for start octets (IEC 60870-5-1: a line idle
+        # interval is required before the next frame) -- nothing may be answered or indicated
+        own_ = OWN[al]
+        if kind in ("us", "bal"):
+            inner = [("reqstatus", L.fixed(al, L.ctrl(9, prm=1), own_)),
+                     ("ud", L.variable(al, L.ctrl(3 if kind == "bal" else 4, prm=1, fcb_acd=(1 if kind == "bal" else 0), fcv_dfc=(1 if kind == "bal" else 0)), own_, b"\x2d\x01\x06\x00\x01\x00\x07\x00\x00\x01"))]
+            for iname, fin in inner:
+                for pad in (0, 3, 12, 40, 80, 100):
+                    carrier = bytearray(L.variable(al, L.ctrl(4, prm=1), own_, bytes([0x55] * pad) + fin + bytes([0x55] * 4)))
+                    # a damaged first start octet with the embedded frame anywhere (also beyond the octets a pseudo-frame starting
+                    # at the second 68 would swallow); damaged length octets only for carriers shorter than 128 octets
+                    cases = [("start", 0, 0x28), ("start2", 0, 0x69)] + ([("len1", 1, carrier[1] ^ 0x80), ("len2", 2, carrier[2] ^ 0x01)] if pad <= 40 else [])
+                    for cname, pos, val in cases:
+                        g = bytearray(carrier)
+                        g[pos] = val
+                        sid = "emb.%s.%d.%d.%s.%d.%s" % (kind, al, sc, iname, pad, cname)
+                        scripts.append((sid, pre + ["rx " + hx(bytes(g))] + ["run"] * (len(g) + 4)))
+                        meta[sid] = ("rx", kind, al, len(pre), ("embedded-" + iname, "%s pad=%d" % (cname, pad)), bytes(g))
         if al > 0:
             own = OWN[al]
             others = sorted({own ^ 1, (own + 1) % (1 << (8 * al)), 0, (own >> 8) | ((own & 255) << 8) if al == 2 else own ^ 0x80,
